@@ -73,7 +73,7 @@ func ImportBlocks(
 		return e.Wrap(err)
 	}
 
-	if int64(len(ims)) < batchlimit {
+	if len(ims) > 0 {
 		if err := saveImporters(ctx, ims, mergeBlockWriterDatabasesf); err != nil {
 			return e.WithMessage(err, "save importers")
 		}
